@@ -71,8 +71,10 @@ class Phys:
         if t == "s":
             return [m[1:] for m in sorted(els, key=lambda x: unh(x[1:]))][:max(a, 0)]
         if t == "z":
-            l = sorted(els.items(), key=lambda x: (int(x[1][1:]), unh(x[0][1:])))
-            return ["%s:%s" % (m[1:], v[1:]) for m, v in l][:max(a, 0)]
+            # ZRANGE iterates the score index (sub keys s<score>:<member>)
+            idx = [(int(sb[1:].split(":")[0]), sb[1:].split(":")[1]) for sb in els if sb[0] == "s"]
+            idx.sort(key=lambda x: (x[0], unh(x[1])))
+            return ["%s:%d" % (m, sc) for sc, m in idx][:max(a, 0)]
         if t == "l":
             l = sorted(((int(s[1:]), v) for s, v in els.items()))
             return [v[1:] for s, v in l if a <= s <= b]
@@ -336,6 +338,8 @@ def stale_same_version(ph, t, k):
     exp, ver, a, b = ph.meta[(t, k)]
     els = ph.el.get((t, k, ver), {})
     n = b - a + 1 if t == "l" else a
+    if t == "z":
+        return len([x for x in els if x[0] == "b"]) != n or len([x for x in els if x[0] == "s"]) != n
     return len(els) != n
 
 
